@@ -570,10 +570,14 @@ def run_property(pid, tier, repo=REPO, keep=False, quiet_evidence=False, record_
     for h in harnesses:
         if h["unit"] not in used_units:
             used_units.append(h["unit"])
-    for u in list(used_units):
-        for r in u.requires:
-            if units[r] not in used_units:
-                used_units.append(units[r])
+    changed = True
+    while changed:  # transitive closure of requires-unit
+        changed = False
+        for u in list(used_units):
+            for r in u.requires:
+                if units[r] not in used_units:
+                    used_units.append(units[r])
+                    changed = True
     verus_units = [os.path.join(VERUS_DIR, v + ".rs") for v in cfg.get("verus", [])
                    if tier == "thorough" or v not in cfg.get("verus_thorough_only", [])]
     scratch = make_scratch(pid, repo)
